@@ -23,8 +23,13 @@ def ctx_contract(res, gr, results):
             if o["VTC"] != o["VC"]:
                 bad = "ValidateContext and Validate%sContext differ" % m["type"]
             flip = cs.get("ctxflip", -1)
+            # the generator model (gen_file) says how many cancellation points an undisturbed run passes: one per validated field
+            want_calls = r["gcalls"][j] if j < len(r.get("gcalls", [])) else None
             if flip < 0:
-                undisturbed = (o, int(o["calls"]))
+                undisturbed = (o, int(o["calls"]) if want_calls is None else max(int(o["calls"]), want_calls))
+                if want_calls is not None and int(o["calls"]) != want_calls and not cs.get("nil"):
+                    bad = ("an undisturbed run polls the context %s times, but one cancellation point per validated field means %d"
+                           % (o["calls"], want_calls))
                 if o["VTC"] != o["V"]:
                     bad = "with a context that is never done, ValidateContext differs from Validate()"
             elif cs.get("nil"):
